@@ -259,7 +259,7 @@ HARNESSES = [
     covers=['accepted', 'rejected', 'permuted'], replay='replay_carbon', twin_pre=['two and ni <= 1'],
     encodes=['carbon.util:TaggedSeries.parse_carbon', 'carbon.util:TaggedSeries.format', 'carbon.util:TaggedSeries.validateTagAndValue'],
     assumptions=_ASSUME + ['template name;t1=v1[;t2=v2], components from a table of %d strings incl. empty and reserved-character ones (symbolic indices); arbitrary strings up to the C18_any bound are covered there' % len(COMP2) + '']),
-  H('C18_syntax', quick=dict(timeout=280, shards=[('one', 'not two'), ('two', 'two and ni <= 1 and v1i <= 2 and v2i <= 2')]),
+  H('C18_syntax', quick=dict(timeout=420, shards=[('one', 'not two'), ('two_n0', 'two and ni == 0 and v1i <= 2 and v2i <= 2'), ('two_n1', 'two and ni == 1 and v1i <= 2 and v2i <= 2')]),
     thorough=dict(timeout=900, extra_pre=['(not two) or (v1i <= 4 and v2i <= 4)'], shards=[('one', 'not two')] + [('two_n%d' % k, 'two and ni == %d' % k) for k in range(len(COMP))]), covers=['both'], replay='replay_syntax',
     encodes=['carbon.util:TaggedSeries.parse_openmetrics', 'carbon.util:TaggedSeries.parse_carbon', 'carbon.util:TaggedSeries.format'],
     assumptions=_ASSUME + ['same tag set written in carbon and OpenMetrics syntax and in both orders; name/tags/values from a table of %d plain components with symbolic indices (the OpenMetrics regex on symbolic strings is out of CrossHair\'s reach); optional explicit name tag' % len(COMP) + '']),
